@@ -166,6 +166,14 @@ def judge(scn, o, faults, acc):
                 if f is not None and hasattr(f, "closed") and not f.closed:
                     out.append(("buffer-not-released", "an output buffer of a closed channel is still open"))
                     break
+    for ch in o.chans:
+        if ch.socket is None and not ch.connected:
+            # (bytes counted on a torn-down channel are not judged here: the worker's end-of-service
+            # 100 Continue lands in the dead channel's in-memory buffer and is collected with it)
+            for t in w.sched.threads:
+                if t.role == "worker" and t.state == "blocked" and t.blocked_on and t.blocked_on[0] == "cond" \
+                        and t.blocked_on[1] == id(ch.outbuf_lock):
+                    out.append(("worker-lost-on-closed-channel", f"{t.name} still waits for buffer space of a channel that has been torn down"))
     for cid in targets:
         if cid >= len(w.net.conns):
             continue
@@ -288,7 +296,7 @@ def run_shard(spec):
         R.finish(o)
         k = 0
         for cid, op, n in sends:
-            for kind in ("CLOSE", "RST"):
+            for kind in ("CLOSE", "RST", errno.ETIMEDOUT):
                 k += 1
                 if k % spec["parts"] != spec["part"]:
                     continue
